@@ -132,10 +132,10 @@ def main(pid):
                    "observed_groups": obs[len(paths) // 2]["groups"]})
     # random walks (tlc -simulate) over the product alphabet: the transition replay above visits every state
     # of the history-free model along ONE path, so state the implementation might hide (a cache, a memo) is
-    # only met by longer histories; per TLC worker -- quick: 150 walks, thorough: 20,000
+    # only met by longer histories; per TLC worker -- quick: 150 walks, thorough: 1,500
     if True:
         r = run_tlc("MC_Resolve", "MC_Resolve_Full_sim.cfg", timeout=900,
-                    simulate=f"num={20000 if thorough else 150}", depth=10, extra=["-seed", str(vlib.seed() + 1)])
+                    simulate=f"num={1500 if thorough else 150}", depth=10, extra=["-seed", str(vlib.seed() + 1)])
         if r.errors and not ("Simulation" in r.out or "simulation" in r.out):
             raise MachineryError("simulation failed: " + "\n".join(r.errors[:5]))
         alpha, paths = parse_emit(r.out)
